@@ -9,8 +9,14 @@ FIRST = {  # outcome of the check as it was when the change arrived (exit 1 = ca
  "C07/1": "no", "C07/2": "yes", "C08/1": "yes", "C08/2": "yes", "C09/1": "yes", "C09/2": "yes", "C10/1": "no", "C10/2": "yes",
  "C11/1": "no", "C11/2": "yes", "C12/1": "yes", "C12/2": "no", "C13/1": "yes", "C13/2": "yes", "C14/1": "yes", "C14/2": "yes",
  "C15/1": "no", "C15/2": "yes", "C17/1": "no", "C17/2": "yes", "C18/1": "yes", "C18/2": "yes", "C19/1": "yes", "C19/2": "yes",
+ # round 2 (one change per property, directories .../3)
+ "C01/3": "yes", "C02/3": "no", "C03/3": "yes", "C04/3": "n/a (op LongWait added after reading the change's description, before the first run; the histories before it never kept a transaction pending for > 50 blocks)",
+ "C05/3": "yes", "C06/3": "yes", "C07/3": "yes", "C08/3": "yes", "C09/3": "yes", "C10/3": "yes", "C11/3": "yes", "C12/3": "yes",
+ "C13/3": "yes", "C14/3": "yes", "C15/3": "yes", "C16/3": "yes", "C17/3": "yes", "C18/3": "yes", "C19/3": "yes", "C20/3": "yes",
 }
 STRENGTH = {
+ "C02/3": "same code change as C02/1, but after the late-lock repair in /repo it only shows when the refusal comes from the payment-proof check (after the lock): late-locked sends may now ask for a proof, new mutation PaymentProofSigFlip, then the genuine reply -> c02:retry:sent-entries",
+ "C04/3": "new op LongWait (mempool mined, 51-56 empty blocks, all wallets refresh) -> c04:*:ledger",
  "C02/1": "C02 now re-delivers the genuine reply after a refused altered one (late-locked sends kept small so a second selection is possible) and requires exactly one TxSent entry + all facts",
  "C02/2": "new reply mutation AddZeroValueOutput (extra zero-value output compensated in the offset) -> c02:fee-below-minimum",
  "C03/1": "new ops FinalizeTampered (corrupted reply, then the genuine one) -> c03:duplicate-sent-entry",
